@@ -227,7 +227,12 @@ impl ConstructibleDb {
                     computation_db,
                     framework_items_db,
                 ) else {
-                    if let Some(user_component_id) = component_db.user_component_id(component_id) {
+                    // Error handlers are transformers: they are not covered by `user_component_id`,
+                    // but the user-registered ones do point back at their registration.
+                    let user_component_id = component_db.user_component_id(component_id).or_else(|| {
+                        component_db.error_handler_user_component_id(component_id)
+                    });
+                    if let Some(user_component_id) = user_component_id {
                         self.missing_constructor(
                             user_component_id,
                             component_db.user_db(),
